@@ -1,5 +1,6 @@
 import ParsecVerif.Model.Future
 import ParsecVerif.Proofs.Future
+import ParsecVerif.Proofs.FutureDC
 import ParsecVerif.Base.Interleave
 /-!
 # C29 — futures complete once and deliver one value
@@ -279,12 +280,6 @@ theorem binv_step (A : List BOp) (hA : ∀ v, BOp.set v ∈ A → v ≠ 0) (s : 
       exact bthok_fin .get _ ht (ht.hd _ (by rw [hp]; rfl)) (fun _ => ⟨ht.rmb hp, rfl⟩) (by intro hh; cases hh) (by intro x hh; cases hh)
     | done => simpa using h
 
-
-theorem foldl_inv {σ} (P : σ → Prop) (f : σ → Nat → σ) (hstep : ∀ s t, P s → P (f s t)) (sched : List Nat) (s : σ) (h : P s) :
-    P (sched.foldl f s) := by
-  induction sched generalizing s with
-  | nil => exact h
-  | cons t r ih => exact ih _ (hstep s t h)
 
 theorem binv_run (progs : List (List BOp)) (hv : ∀ p ∈ progs, ∀ v, BOp.set v ∈ p → v ≠ 0) (c : Int) (sched : List Nat) :
     BInv progs.flatten (brun false c progs sched) := by
@@ -617,5 +612,85 @@ theorem C29_count_nonpositive (c : Int) (hc : c ≤ 0) (progs : List (List BOp))
 example : (brun true 2 [[.set 0], [.set 0, .get], [.set 0]] [0, 1, 0]).sh.compl = false ∧
     (brun true 2 [[.set 0], [.set 0, .get], [.set 0]] [0, 1, 0, 1, 2, 2, 1, 1]).sh.cb = 1 ∧
     finishedSets (brun true 2 [[.set 0], [.set 0, .get], [.set 0]] [0, 1, 0, 1, 2, 2, 1, 1]) = 3 := by decide
+
+
+/-! ## Data-copy (reshape) future
+
+`cfg.cls` is ANY class function (the match callback is `cls a = cls b`), `cfg.async` ANY choice of which shapes are
+fulfilled by a deferred `set`; `b` the base future's shape; `pre` whether its creator completed it before sharing. -/
+open ParsecVerif.FutureDC
+
+/-- **C29 (trigger once).**  After ANY schedule, for the base future and every nested future: the fulfilment callback ran
+    at most once, and exactly once iff the future is TRIGGERED. -/
+theorem C29_trigger_once (cfg : Cfg) (b : Nat) (pre : Bool) (progs : List (List DOp)) (sched : List Nat) :
+    ∀ fu ∈ (drun cfg b pre progs sched).futs, fu.cb ≤ 1 ∧ (fu.cb = 1 ↔ fu.trig = true) := by
+  intro fu hfu
+  have h := ((dinv_run cfg b pre progs sched).futs fu hfu).1
+  cases ht : fu.trig <;> simp [ht] at h ⊢ <;> omega
+
+/-- **C29 (nested futures).**  After ANY schedule the shape classes of the base future and of all nested futures are
+    pairwise distinct: at most one nested future per shape class, and none that matches the base future. -/
+theorem C29_nested_distinct (cfg : Cfg) (b : Nat) (pre : Bool) (progs : List (List DOp)) (sched : List Nat) :
+    (((drun cfg b pre progs sched).futs.map (·.shape)).map cfg.cls).Nodup ∧
+    ∀ (i j : Nat) (fi fj : Fut), (drun cfg b pre progs sched).futs[i]? = some fi → (drun cfg b pre progs sched).futs[j]? = some fj →
+      cfg.cls fi.shape = cfg.cls fj.shape → i = j := by
+  have h := (dinv_run cfg b pre progs sched).nodup
+  refine ⟨h, ?_⟩
+  intro i j fi fj hi hj hc
+  refine nodup_getElem?_inj _ h i j (cfg.cls fi.shape) ?_ ?_
+  · simp [shapes, hi]
+  · simp [shapes, hj, hc]
+
+/-- class of the future that serves request `r` (NULL spec: the base future) -/
+def reqClass (cfg : Cfg) (s : DState) (r : Nat) : Nat := if r = 0 then cfg.cls (baseShape s) else cfg.cls r
+
+/-- **C29 (values).**  After ANY schedule every finished `get_or_trigger(r)` returned NULL or the value of the first (only)
+    fulfilment of a future of `r`'s class (of the base future for a NULL spec). -/
+theorem C29_dc_values (cfg : Cfg) (b : Nat) (pre : Bool) (progs : List (List DOp)) (sched : List Nat) :
+    ∀ th ∈ (drun cfg b pre progs sched).thr, ∀ r v, (DOp.trig r, v) ∈ th.res →
+      v = 0 ∨ ∃ f fu, (drun cfg b pre progs sched).futs[f]? = some fu ∧ v = valOf 1 fu.shape ∧
+        cfg.cls fu.shape = reqClass cfg (drun cfg b pre progs sched) r ∧ (r = 0 → f = 0) := by
+  have h := dinv_run cfg b pre progs sched
+  generalize drun cfg b pre progs sched = s at h
+  intro th hth r v hm
+  rcases (h.thr th hth).2 r v hm with h0 | ⟨f, x, hx, hv, hr0, hr1⟩
+  · exact Or.inl h0
+  · right
+    simp only [shapes, List.getElem?_map, Option.map_eq_some_iff] at hx
+    obtain ⟨fu, hfu, rfl⟩ := hx
+    refine ⟨f, fu, hfu, hv, ?_, hr0⟩
+    unfold reqClass
+    by_cases hr : r = 0
+    · rw [if_pos hr]
+      have hf0 := hr0 hr
+      subst hf0
+      unfold baseShape
+      rw [hfu]
+    · rw [if_neg hr]; exact hr1 hr
+
+/-- **C29 (one value per class).**  After ANY schedule any two non-NULL answers to requests of the same class are equal:
+    every reader of a shape class gets the same value. -/
+theorem C29_dc_one_value_per_class (cfg : Cfg) (b : Nat) (pre : Bool) (progs : List (List DOp)) (sched : List Nat) :
+    ∀ th1 ∈ (drun cfg b pre progs sched).thr, ∀ th2 ∈ (drun cfg b pre progs sched).thr, ∀ r1 v1 r2 v2,
+      (DOp.trig r1, v1) ∈ th1.res → (DOp.trig r2, v2) ∈ th2.res → v1 ≠ 0 → v2 ≠ 0 →
+      reqClass cfg (drun cfg b pre progs sched) r1 = reqClass cfg (drun cfg b pre progs sched) r2 → v1 = v2 := by
+  intro th1 h1 th2 h2 r1 v1 r2 v2 hm1 hm2 hv1 hv2 hc
+  rcases C29_dc_values cfg b pre progs sched th1 h1 r1 v1 hm1 with h0 | ⟨f1, fu1, hf1, hval1, hc1, _⟩
+  · exact absurd h0 hv1
+  rcases C29_dc_values cfg b pre progs sched th2 h2 r2 v2 hm2 with h0 | ⟨f2, fu2, hf2, hval2, hc2, _⟩
+  · exact absurd h0 hv2
+  have hff := (C29_nested_distinct cfg b pre progs sched).2 f1 f2 fu1 fu2 hf1 hf2 (by rw [hc1, hc2, hc])
+  subst hff
+  rw [hf1] at hf2
+  cases hf2
+  rw [hval1, hval2]
+
+/-- non-vacuity: base shape 1, classes mod 4, synchronous fulfilment; two threads ask for shape 2 and one for shape 6
+    (same class): one nested future, triggered once, all three get its value -/
+example : ((drun ⟨fun x => x % 4, fun _ => false⟩ 1 false [[.trig 2], [.trig 6], [.trig 2, .trig 0]]
+      [0, 1, 2, 0, 0, 0, 0, 1, 1, 2, 2, 2, 2, 2]).futs.map fun fu => (fu.shape, fu.cb, fu.data)) = [(1, 1, 101), (2, 1, 102)] ∧
+    ((drun ⟨fun x => x % 4, fun _ => false⟩ 1 false [[.trig 2], [.trig 6], [.trig 2, .trig 0]]
+      [0, 1, 2, 0, 0, 0, 0, 1, 1, 2, 2, 2, 2, 2]).thr.map (·.res)) =
+      [[(.trig 2, 102)], [(.trig 6, 102)], [(.trig 2, 102), (.trig 0, 101)]] := by decide
 
 end ParsecVerif.C29
